@@ -275,6 +275,11 @@ Definition entries_C18 : list entry := [
                  e_xv (if okq then XFin (sector_arc q) else XNaN);
                  e_xv (if okq && negb (length l =? 2)%nat then XFin (ff_angular_spec q) else XNaN)])
      | _ => None end));
+  (* ( x t ) -> regenerated per-cell comparison of proportion_exceeding *)
+  ("c18_k_exceed", fun r => orun (
+     match r with RL [x; t] =>
+       let? x := d_xv x in let? t := d_xv t in Some (e_xv (exceed x t))
+     | _ => None end));
   (* ( (values) t ) -> proportion of valid values >= t *)
   ("c18_prop_spec", fun r => orun (
      match r with RL [l; t] =>
